@@ -389,6 +389,23 @@ class KconfigOptionBlock(KconfigBlock):
 
             return True
 
+        def index_of_if(tokens: List[str]) -> int:
+            """
+            Index of the "if" that starts the condition of an option line, -1 if there is none.
+            The word "if" inside a quoted string (default "say if so") is not a keyword.
+            """
+            quote = None
+            for i, tok in enumerate(tokens):
+                if quote is None and tok == "if":
+                    return i
+                for j, char in enumerate(tok):
+                    if char in ('"', "'") and (j == 0 or tok[j - 1] != "\\"):
+                        if quote is None:
+                            quote = char
+                        elif quote == char:
+                            quote = None
+            return -1
+
         def prompt_from_token_list(tokens: List[str]) -> Tuple[str, int]:
             """
             Get prompt (i.e. quoted string) from the list of tokens. Start and end are determined by the quotes.
@@ -491,8 +508,8 @@ class KconfigOptionBlock(KconfigBlock):
 
             # parse default
             elif tokens[0] == "default":
-                if "if" in tokens:
-                    if_idx = tokens.index("if")
+                if_idx = index_of_if(tokens)
+                if if_idx != -1:
                     expr_text = " ".join(tokens[1:if_idx])
                     try:
                         default_val = expression.parse_string(expr_text, parse_all=True).as_list()
@@ -678,7 +695,7 @@ class KconfigOptionBlock(KconfigBlock):
                     output_list = option_dict["set"]
                     assignment_idx = 1
 
-                if_idx = tokens.index("if") if "if" in tokens else -1
+                if_idx = index_of_if(tokens)
                 expr_text = " ".join(tokens[assignment_idx:if_idx] if if_idx != -1 else tokens[assignment_idx:])
                 try:
                     assignment = expression.parse_string(expr_text, parse_all=True).as_list()[
